@@ -65,6 +65,8 @@ def node_src(n):
         return '${%s}' % n[1]
     if k == 'c':
         return '<!--%s-->' % n[1]
+    if k == 'pi':
+        return '<?python %s ?>' % n[1]
     if k == 'e':
         _, tag, attrs, dirs, kids = n
         a = ''.join(' %s="%s"' % (name, parts_src(parts, True)) for name, parts in attrs)
@@ -77,9 +79,15 @@ def node_src(n):
     raise ValueError(n)
 
 
-def source(tree, i18n=True):
-    """tree = list of nodes (children of the root element)"""
+NS_XHTML = 'http://www.w3.org/1999/xhtml'
+
+
+def source(tree, i18n=True, xhtml=False):
+    """tree = list of nodes (children of the root element); `xhtml`: the document is in the
+    XHTML namespace (all element names become namespaced QNames)"""
     ns = ' xmlns:i18n="%s"' % NS_I18N if i18n else ''
+    if xhtml:
+        ns = ' xmlns="%s"' % NS_XHTML + ns
     return '<html xmlns:py="%s"%s>%s</html>' % (NS_PY, ns, ''.join(node_src(c) for c in tree))
 
 
@@ -413,7 +421,7 @@ class Ref(object):
         k = n[0]
         if k == 't':
             return [['t', self.text(n[1], skip)]]
-        if k in ('x', 'c'):
+        if k in ('x', 'c', 'pi'):
             return [n]
         if k == 'd':
             _, qn, args, kids = n
@@ -736,8 +744,11 @@ class Gen(object):
             return self.text()
         if q < 0.28:
             return self.expr()
-        if q < 0.31:
+        if q < 0.30:
             return ['c', ' ' + self.words(alpha=True) + ' ']
+        if q < 0.31:
+            self.uid += 1
+            return ['pi', "v%d = _('%s')" % (self.uid, r.choice(WORDS[:14]))]
         if q < 0.45 and not excl:
             return self.msg(2)
         if q < 0.53 and not excl:
@@ -811,7 +822,7 @@ class Gen(object):
 
     def case(self, depth=2):
         tree = self.blocks(depth)
-        return {'tmpl': tree, 'data': self.data(), 'cfg': self.config}
+        return {'tmpl': tree, 'data': self.data(), 'cfg': self.config, 'xhtml': self.rng.random() < 0.15}
 
 
 def gen_case(rng, hazards=(), depth=2, nofrag=False):
